@@ -36,6 +36,7 @@ type c15GenSlot struct {
 	ended bool
 	x     bool
 	t     bool
+	ign   bool // opened after GS: above the GOAWAY's last stream id, the server ignores it (no handler)
 }
 
 type c15GenState struct {
@@ -44,6 +45,8 @@ type c15GenState struct {
 	pings int
 	sets  int
 	blk   bool
+	gsMenu bool // GS (the server starts a graceful shutdown) is on the menu
+	gs     bool // GS has been issued (at most once per case)
 }
 
 // c15MaxSlots bounds the number of streams of a case in the parts that start
@@ -69,11 +72,11 @@ func c15GenNext(st *c15GenState, bad []string, blocking bool, emit func(ev strin
 		max = c15MaxSlots
 	}
 	if len(st.slots) < max {
-		emit("H", func(s *c15GenState) { s.slots = append(s.slots, c15GenSlot{kind: "H", ended: true}) })
-		emit("Ho", func(s *c15GenState) { s.slots = append(s.slots, c15GenSlot{kind: "Ho"}) })
+		emit("H", func(s *c15GenState) { s.slots = append(s.slots, c15GenSlot{kind: "H", ended: true, ign: s.gs}) })
+		emit("Ho", func(s *c15GenState) { s.slots = append(s.slots, c15GenSlot{kind: "Ho", ign: s.gs}) })
 		for _, k := range bad {
 			k := k
-			emit("Hb:"+k, func(s *c15GenState) { s.slots = append(s.slots, c15GenSlot{kind: "Hb:" + k, ended: true}) })
+			emit("Hb:"+k, func(s *c15GenState) { s.slots = append(s.slots, c15GenSlot{kind: "Hb:" + k, ended: true, ign: s.gs}) })
 		}
 	}
 	for i := range st.slots {
@@ -84,7 +87,7 @@ func c15GenNext(st *c15GenState, bad []string, blocking bool, emit func(ev strin
 		if !sl.rst {
 			emit("R"+n, func(s *c15GenState) { s.slots[i].rst = true })
 		}
-		if valid && !sl.done {
+		if valid && !sl.done && !sl.ign {
 			emit("W"+n, func(s *c15GenState) {})
 			emit("F"+n, func(s *c15GenState) { s.slots[i].done = true })
 			emit("P"+n, func(s *c15GenState) { s.slots[i].done = true })
@@ -105,6 +108,9 @@ func c15GenNext(st *c15GenState, bad []string, blocking bool, emit func(ev strin
 	if st.sets < 2 {
 		emit("SET", func(s *c15GenState) { s.sets++ })
 	}
+	if st.gsMenu && !st.gs {
+		emit("GS", func(s *c15GenState) { s.gs = true })
+	}
 	if blocking {
 		if !st.blk {
 			emit("BLK", func(s *c15GenState) { s.blk = true })
@@ -122,12 +128,13 @@ func (st *c15GenState) clone() *c15GenState {
 
 // c15Gen yields every statically legal event sequence of length 1..depth,
 // shortest first.
-func c15Gen(cfg string, depth int, bad []string, blocking bool, prefix []string, yield func(c15Case) bool) bool {
-	return c15GenSlots(cfg, depth, 0, bad, blocking, prefix, yield)
+func c15Gen(cfg string, depth int, bad []string, blocking, gs bool, prefix []string, yield func(c15Case) bool) bool {
+	return c15GenSlots(cfg, depth, 0, bad, blocking, gs, prefix, yield)
 }
 
 // c15GenSlots is c15Gen with an explicit bound on the number of stream slots.
-func c15GenSlots(cfg string, depth, maxSlots int, bad []string, blocking bool, prefix []string, yield func(c15Case) bool) bool {
+// gs puts GS (graceful shutdown, at most once) on the menu.
+func c15GenSlots(cfg string, depth, maxSlots int, bad []string, blocking, gs bool, prefix []string, yield func(c15Case) bool) bool {
 	for n := 1; n <= depth; n++ {
 		var rec func(st *c15GenState, evs []string) bool
 		rec = func(st *c15GenState, evs []string) bool {
@@ -145,7 +152,7 @@ func c15GenSlots(cfg string, depth, maxSlots int, bad []string, blocking bool, p
 			})
 			return ok
 		}
-		st := &c15GenState{max: maxSlots}
+		st := &c15GenState{max: maxSlots, gsMenu: gs}
 		// replay the prefix on the generator state
 		for _, pe := range prefix {
 			found := false
@@ -175,6 +182,7 @@ type c15Slot struct {
 	key        string
 	kind       string
 	beyond     bool
+	afterGS    bool // opened after the server was told to shut down gracefully: above the GOAWAY's last stream id
 	cliEnded   bool
 	cliRst     bool
 	cliRstStep int
@@ -208,6 +216,7 @@ type c15Mon struct {
 	pings        [][8]byte // sent, not yet acknowledged
 	goAway       bool
 	goAwayErr    bool
+	gs           bool // the harness has started a graceful shutdown of the server (event GS)
 	illegal      bool // the client has left the protocol (stream-id reuse …): count-based clauses are off
 	blocked      bool // the harness is not reading: the server's writes may be stuck
 	everBlocked  bool
@@ -216,6 +225,20 @@ type c15Mon struct {
 
 func (m *c15Mon) fail(sig, format string, a ...any) {
 	m.w.Failf("C15/"+sig, format, a...)
+}
+
+// errState reports whether the server has left normal operation with a
+// connection error: it sent GOAWAY with an error code, or (white-box, quiescent
+// points only) a connection error followed a graceful GOAWAY, in which case the
+// server enters the same discard-everything state without a second GOAWAY.
+func (m *c15Mon) errState() bool {
+	if m.goAwayErr {
+		return true
+	}
+	if m.gs && m.s.sc != nil && !m.s.sc.C15ServeDone() {
+		return m.s.sc.C15Peek().GoAwayErr
+	}
+	return false
 }
 
 func (m *c15Mon) history() string {
@@ -322,7 +345,7 @@ func (m *c15Mon) quiescent() {
 			m.fail("handlers/curHandlers-above-limit", "serverConn.curHandlers=%d > advMaxStreams=%d", pk.CurHandlers, pk.AdvMaxStreams)
 		}
 	}
-	healthy := !dead && !m.goAwayErr && !m.blocked
+	healthy := !dead && !m.errState() && !m.blocked
 	for _, sl := range m.slots {
 		hs := s.hstate(sl.key)
 		if hs.Entered > 1 {
@@ -338,7 +361,7 @@ func (m *c15Mon) quiescent() {
 			if sl.status != "" && !strings.HasPrefix(sl.status, "4") {
 				m.fail("malformed/answered-with-success/"+c15KindClass(sl.kind), "request %q on stream %d was answered with status %s; history:%s", sl.kind, sl.id, sl.status, m.history())
 			}
-			if healthy && !sl.cliRst && !m.illegal {
+			if healthy && !sl.cliRst && !m.illegal && !sl.afterGS {
 				rejected := sl.srvRst
 				if sl.connKind() {
 					// RFC 9113 §8.1.1: the server may answer with an HTTP response before closing the stream
@@ -489,7 +512,10 @@ func c15Exec(t testing.TB, w *vx.W, cs c15Case) {
 					open++
 				}
 			}
-			nsl.beyond = !m.illegal && !m.blocked && open >= m.limit
+			// a stream opened after the graceful shutdown began lies above the GOAWAY's
+			// last stream id: the server ignores it (RFC 9113 6.8), it is not refused
+			nsl.afterGS = m.gs
+			nsl.beyond = !m.illegal && !m.blocked && !m.gs && open >= m.limit
 			if nsl.beyond {
 				m.feat["beyond-limit"] = true
 			}
@@ -508,7 +534,7 @@ func c15Exec(t testing.TB, w *vx.W, cs c15Case) {
 			sl.cliRst = true
 			sl.cliRstStep = s.step
 			sl.rstWhileBlocked = m.blocked
-			sl.rstAfterGoAwayErr = m.goAwayErr
+			sl.rstAfterGoAwayErr = m.errState()
 			sl.enteredAtRst = s.hstate(sl.key).Entered > 0
 			if !sl.enteredAtRst && !sl.malformed() && !sl.beyond && !sl.srvRst {
 				m.feat["reset-before-handler-start"] = true
@@ -559,6 +585,15 @@ func c15Exec(t testing.TB, w *vx.W, cs c15Case) {
 		case kind == "SET":
 			m.settingsSent++
 			s.fr.WriteSettings(Setting{ID: SettingInitialWindowSize, Val: 65535}, Setting{ID: SettingEnablePush, Val: 0})
+		case kind == "GS":
+			// what http.Server.Shutdown does to every HTTP/2 connection: GOAWAY(NO_ERROR, last stream id)
+			if m.gs || s.sc == nil {
+				w.Outcome("pruned:graceful-shutdown-not-applicable")
+				return
+			}
+			m.gs = true
+			m.feat["graceful-shutdown"] = true
+			s.sc.StartGracefulShutdown()
 		case kind == "BLK":
 			// the client stops reading and its receive buffer is tiny
 			s.cli.SetReadBufferSize(blkSize)
@@ -622,7 +657,7 @@ func c15Exec(t testing.TB, w *vx.W, cs c15Case) {
 	} else if m.goAway {
 		feats = append(feats, "goaway")
 	}
-	for _, k := range []string{"beyond-limit", "malformed", "reset-before-handler-start", "client-not-reading"} {
+	for _, k := range []string{"graceful-shutdown", "beyond-limit", "malformed", "reset-before-handler-start", "client-not-reading"} {
 		if m.feat[k] {
 			feats = append(feats, k)
 		}
@@ -649,10 +684,11 @@ func c15RunCase(c *vx.Ctx, w *vx.W, cs c15Case) {
 func TestVerif_C15(t *testing.T) {
 	vx.Run(t, "C15", func(c *vx.Ctx) {
 		depth := vx.Pick(c, 3, 5)
-		c.Rule(fmt.Sprintf("every statically legal sequence of 1..%d events (shortest first) over the menu {H (request, END_STREAM), Ho (request with open body), Hb:k (malformed request), and per stream slot i<=%d: R_i client RST_STREAM, W_i handler Write+Flush, F_i handler returns, P_i handler panics, D_i DATA+END_STREAM, T_i trailer-style HEADERS (legal only while the request body is open), X_i a second request HEADERS on the same stream id (id re-use), PING (<=2), SETTINGS (<=2)}, for MAX_CONCURRENT_STREAMS 1 and 2 (default RFC 9218 scheduler; the other three schedulers one level shallower), plus the same menu (incl. BLK/UNB: the client stops/resumes reading) explored %d levels deep from seven seeded prefixes (there the stream bound is max(%d, 2*MAX+1): MAX handlers still running for streams the client has reset, MAX live streams queued behind them, one stream beyond the limit; one prefix is that saturated state itself, H H R1 R2 with MAX=2, so that a single handler return with two live queued requests is inside the bound), plus every malformed-request kind in every context of <=%d events before and <=1 after; each case runs on a fresh real server in its own synctest bubble, quiescence after every event; a case is non-trivial when all its events were applicable at run time (handler commands need a running handler)", depth, c15MaxSlots, vx.Pick(c, 3, 4), c15MaxSlots, vx.Pick(c, 1, 2)))
+		c.Rule(fmt.Sprintf("every statically legal sequence of 1..%d events (shortest first) over the menu {H (request, END_STREAM), Ho (request with open body), Hb:k (malformed request), and per stream slot i<=%d: R_i client RST_STREAM, W_i handler Write+Flush, F_i handler returns, P_i handler panics, D_i DATA+END_STREAM, T_i trailer-style HEADERS (legal only while the request body is open), X_i a second request HEADERS on the same stream id (id re-use), PING (<=2), SETTINGS (<=2), GS (at most once: the server starts a graceful shutdown, serverConn.startGracefulShutdown = what http.Server.Shutdown triggers: GOAWAY(NO_ERROR, last stream id); streams opened afterwards lie above that id, get R/D/T/X but no handler events)}, for MAX_CONCURRENT_STREAMS 1 and 2 (default RFC 9218 scheduler; the other three schedulers one level shallower), plus the same menu (incl. BLK/UNB: the client stops/resumes reading) explored %d levels deep from nine seeded prefixes (there the stream bound is max(%d, 2*MAX+1): MAX handlers still running for streams the client has reset, MAX live streams queued behind them, one stream beyond the limit; one prefix is that saturated state itself, H H R1 R2 with MAX=2, so that a single handler return with two live queued requests is inside the bound; two prefixes are a graceful shutdown under way, H GS with MAX=1 and H H GS with MAX=2 (stream bound %d), so that client frames on a stream below, equal to and above the GOAWAY's last stream id followed by handler writes/returns are inside the bound), plus every malformed-request kind in every context of <=%d events before and <=1 after; each case runs on a fresh real server in its own synctest bubble, quiescence after every event; a case is non-trivial when all its events were applicable at run time (handler commands need a running handler)", depth, c15MaxSlots, vx.Pick(c, 3, 4), c15MaxSlots, c15MaxSlots, vx.Pick(c, 1, 2)))
 		c.Assume("connection-specific header fields (connection, te!=trailers, transfer-encoding, keep-alive, proxy-connection, upgrade) are answered with an HTTP 4xx response instead of RST_STREAM; RFC 9113 §8.1.1 allows a response before closing the stream, so that is accepted as rejection (the handler must still never run)")
 		c.Assume("PING / SETTINGS acknowledgement is required at quiescence only while the server has neither closed the connection nor sent GOAWAY with an error code")
 		c.Assume("after the server has sent GOAWAY with an error code it discards every incoming frame (and closes the connection within a second); client RST_STREAMs sent after that point are not expected to take effect")
+		c.Assume("a graceful GOAWAY(NO_ERROR) changes no clause for streams up to its last stream id (no HEADERS/DATA after a delivered RST_STREAM, queued handlers of reset streams never run, PING and SETTINGS are still acknowledged); a stream the client opens after GS is ignored by the server (RFC 9113 6.8): it is exempt from the refused-beyond-the-limit and rejected-at-quiescence clauses only (a malformed one must still never reach the handler); when a connection error follows the graceful GOAWAY the server enters the discard-everything state without a second GOAWAY, which the harness reads white-box (serverConn.goAwayCode) at quiescent points")
 		c.Assume("clauses that count the client's open streams (refusal beyond the limit, rejection at quiescence) are switched off after the client re-uses a stream id; the no-frames-after-close, handler-bound, PING and SETTINGS clauses stay on")
 		core := []string{"upperZ", "conn:te"}
 		// seeds: start states that depth-bounded search from the empty connection reaches too late
@@ -661,23 +697,32 @@ func TestVerif_C15(t *testing.T) {
 			cfg string
 			pre []string
 			blk bool
+			slots int // stream bound (0 = c15SeedSlots(MAX))
 		}
-		for i, sdv := range []seed{
-			{"m1", []string{"H", "R1", "H"}, false},      // a handler runs for a reset stream, the next request is queued
-			{"m2", []string{"H", "H", "R1", "H"}, false}, // same with limit 2
-			{"m2", []string{"H", "H", "R1", "R2"}, false}, // every handler slot is held by the handler of a reset stream, every stream slot is free: the next MAX requests are all queued, then a handler returns
-			{"m1", []string{"Ho", "W1"}, false},          // response under way, request body still open
-			{"m2", []string{"Ho", "W1", "H"}, false},
-			{"m2-blk", []string{"BLK", "PING"}, true},     // client not reading: the server's writer is stuck in a flush
-			{"m2-blk", []string{"H", "BLK", "W1"}, true},  // … stuck with a response in flight
-		} {
-			sdv := sdv
+		seeds := []seed{
+			{"m1", []string{"H", "R1", "H"}, false, 0},      // a handler runs for a reset stream, the next request is queued
+			{"m2", []string{"H", "H", "R1", "H"}, false, 0}, // same with limit 2
+			{"m2", []string{"H", "H", "R1", "R2"}, false, 0}, // every handler slot is held by the handler of a reset stream, every stream slot is free: the next MAX requests are all queued, then a handler returns
+			{"m1", []string{"Ho", "W1"}, false, 0},          // response under way, request body still open
+			{"m2", []string{"Ho", "W1", "H"}, false, 0},
+			{"m2-blk", []string{"BLK", "PING"}, true, 0},     // client not reading: the server's writer is stuck in a flush
+			{"m2-blk", []string{"H", "BLK", "W1"}, true, 0},  // … stuck with a response in flight
+			{"m1", []string{"H", "GS"}, false, c15MaxSlots},      // graceful shutdown under way (GOAWAY NO_ERROR), its last stream id is the only open stream
+			{"m2", []string{"H", "H", "GS"}, false, c15MaxSlots}, // … one stream below the GOAWAY's last stream id, one equal to it, a new one above it
+		}
+		// executed smallest part first, so that an internal deadline on a loaded machine cuts as few parts as possible
+		for _, i := range []int{5, 7, 3, 6, 8, 0, 2, 4, 1} {
+			i, sdv := i, seeds[i]
 			vx.Enumerate(c, fmt.Sprintf("seed%d-%s", i, sdv.cfg), vx.Opts{Serial: true, Crumb: true}, func(yield0 func(c15Case) bool) {
 				yield := c15Yield(c, yield0)
 				if !yield(c15Case{Cfg: sdv.cfg, Ev: sdv.pre}) {
 					return
 				}
-				c15GenSlots(sdv.cfg, sd, c15SeedSlots(int(c15ParseCfg(sdv.cfg).MaxStreams)), core, sdv.blk, sdv.pre, yield)
+				slots := sdv.slots
+				if slots == 0 {
+					slots = c15SeedSlots(int(c15ParseCfg(sdv.cfg).MaxStreams))
+				}
+				c15GenSlots(sdv.cfg, sd, slots, core, sdv.blk, true, sdv.pre, yield)
 			}, func(w *vx.W, cs c15Case) { c15RunCase(c, w, cs) })
 		}
 		c.Assume("while the harness does not read (events BLK…UNB) frames the server had already handed to its writer may surface later: the after-client-RST clause is not applied to resets sent in that window, and the at-quiescence clauses are evaluated after the harness has drained the connection again")
@@ -685,14 +730,14 @@ func TestVerif_C15(t *testing.T) {
 			cfg := cfg
 			vx.Enumerate(c, "core-"+cfg, vx.Opts{Serial: true, Crumb: true}, func(yield0 func(c15Case) bool) {
 				yield := c15Yield(c, yield0)
-				c15Gen(cfg, depth, core, false, nil, yield)
+				c15Gen(cfg, depth, core, false, true, nil, yield)
 			}, func(w *vx.W, cs c15Case) { c15RunCase(c, w, cs) })
 		}
 		for _, cfg := range []string{"m1-rr", "m2-7540", "m2-rand", "m2-rr"} {
 			cfg := cfg
 			vx.Enumerate(c, "sched-"+cfg, vx.Opts{Serial: true, Crumb: true}, func(yield0 func(c15Case) bool) {
 				yield := c15Yield(c, yield0)
-				c15Gen(cfg, depth-1, core, false, nil, yield)
+				c15Gen(cfg, depth-1, core, false, true, nil, yield)
 			}, func(w *vx.W, cs c15Case) { c15RunCase(c, w, cs) })
 		}
 		// every malformed kind in every short context
@@ -709,7 +754,7 @@ func TestVerif_C15(t *testing.T) {
 					if !yield(c15Case{Cfg: cfg, Ev: []string{"Hb:" + k}}) {
 						return
 					}
-					ok := c15Gen(cfg, vx.Pick(c, 1, 2), nil, false, nil, func(pre c15Case) bool {
+					ok := c15Gen(cfg, vx.Pick(c, 1, 2), nil, false, false, nil, func(pre c15Case) bool {
 						if len(pre.Ev) >= 1 && c15CountH(pre.Ev) >= c15MaxSlots {
 							return true
 						}
@@ -717,7 +762,7 @@ func TestVerif_C15(t *testing.T) {
 						if !yield(c15Case{Cfg: cfg, Ev: base}) {
 							return false
 						}
-						return c15Gen(cfg, 1, []string{k}, false, base, func(cs c15Case) bool { return yield(cs) })
+						return c15Gen(cfg, 1, []string{k}, false, false, base, func(cs c15Case) bool { return yield(cs) })
 					})
 					if !ok {
 						return
